@@ -381,3 +381,19 @@ mut('c20-loss-sum-not-mean', ['C20'], 'epoch loss is the sum of batch losses', [
 mut('c20-history-only-last-epoch', ['C20'], 'history re-created every epoch', [(TR, "            ############ TRAIN ############\n", "            ############ TRAIN ############\n            self.history = {}\n")], rules=['C20.HISTORY'], accept_incomplete=True)
 mut('c20-evaluator-default-mode', ['C20'], 'unknown evaluator mode treated as categorical', [(TR, "        elif self.mode == self.CATEGORICAL:\n            y_pred = np.argmax(outputs_numpy, axis=1)\n            y_true = np.argmax(labels_numpy, axis=1)\n        else:\n            raise RuntimeError(f\"Evaluator: mode '{self.mode}' is not valid\")", "        else:\n            y_pred = np.argmax(outputs_numpy, axis=1)\n            y_true = np.argmax(labels_numpy, axis=1)")], rules=['C20.EVALUATOR'])
 mut('c20-train-twice-per-epoch', ['C20'], 'warm-up: first epoch trains twice', [(TR, "            train_metrics = self.__train(train_loader, kbar)\n", "            if epoch == 0: self.__train(train_loader, kbar)\n            train_metrics = self.__train(train_loader, kbar)\n")], rules=['C20.STEP'])
+
+# ------------------------------------------------------------------------------------------------ C13
+mut('c13-dropout-scale-1-over-p', ['C13'], 'Dropout scales survivors by 1/p', [(LY, "random_data = random_data / (1-self.p) # scale data", "random_data = random_data / self.p # scale data")], rules=['C13.DROP-TRAIN'], accept_incomplete=True)
+mut('c13-dropout-keep-prob-p', ['C13'], 'Dropout keeps elements with probability p (mask inverted)', [(LY, "np.where(random_data <= self.p, 0, 1)", "np.where(random_data <= self.p, 1, 0)")], rules=['C13.DROP-TRAIN'])
+mut('c13-dropout-eval-draws', ['C13'], 'Dropout draws (and consumes RNG state) before the eval check', [(LY, "        if not self.training: return x\n        random_data = np.random.rand(*x.shape)", "        random_data = np.random.rand(*x.shape)\n        if not self.training: return x")], rules=['C13.DROP-EVAL'])
+mut('c13-dropout-eval-scaled', ['C13'], 'Dropout scales the input in eval mode', [(LY, "        if not self.training: return x\n", "        if not self.training: return x * (1 - self.p)\n")], rules=['C13.DROP-EVAL'])
+mut('c13-dropout-two-draws', ['C13'], 'Dropout mixes two independent draws', [(LY, "random_data = np.random.rand(*x.shape)\n", "random_data = np.random.rand(*x.shape) * np.random.rand(*x.shape)\n")], rules=['C13.DROP-TRAIN'])
+mut('c13-bn-counter-in-eval', ['C13'], 'num_batches_tracked advances in eval mode too', [(LY, "        if self.training and self.track_running_stats:\n            if self.num_batches_tracked is not None:", "        if self.track_running_stats:\n            if self.num_batches_tracked is not None:")], rules=['C13.BN-ONCE'])
+mut('c13-bn-update-in-eval', ['C13', 'C20'], 'kernel updates the running mean whenever the buffer exists (also in eval)', [(K, "    if running_mean is not None and training:\n        running_mean = mean * momentum", "    if running_mean is not None:\n        running_mean = mean * momentum")], rules=['C13.BN-CHOICE', 'C13.BN-UPDATE'])
+mut('c13-bn-eval-uses-batch-stats', ['C13'], 'layer passes bn_training=True whenever tracking is on', [(LY, "            bn_training = (self.running_mean is None) and (self.running_var is None)", "            bn_training = self.track_running_stats")], rules=['C13.BN-CHOICE'])
+mut('c13-bn-biased-running-var', ['C13'], 'running variance updated with the biased variance', [(K, "unbiased_var = var * (n / (n - 1))", "unbiased_var = var")], rules=['C13.BN-UPDATE'])
+mut('c13-bn-momentum-swapped', ['C13'], 'moving average weights swapped', [(K, "running_mean = mean * momentum + running_mean * (1 - momentum)", "running_mean = mean * (1 - momentum) + running_mean * momentum")], rules=['C13.BN-UPDATE'])
+mut('c13-bn-cma-before-increment', ['C13'], 'cumulative average factor read before the counter is incremented', [(LY, "                self.num_batches_tracked += 1\n                if self.momentum is None:  # use cumulative moving average\n                    exponential_average_factor = 1.0 / float(self.num_batches_tracked)", "                if self.momentum is None:  # use cumulative moving average\n                    exponential_average_factor = 1.0 / float(self.num_batches_tracked + 1)\n                self.num_batches_tracked += 1")], rules=['C13.BN-ONCE'])
+mut('c13-bn-writeback-swapped', ['C13'], 'wrapper writes the new running variance into running_mean', [(NF, "    if new_running_mean is not None: running_mean.data = new_running_mean\n    if new_running_var is not None: running_var.data = new_running_var", "    if new_running_mean is not None: running_mean.data = new_running_var\n    if new_running_var is not None: running_var.data = new_running_mean")], rules=['C13.BN-UPDATE'])
+mut('c13-twin-dropout-gt', ['C13'], 'mask written as np.where(draw > p, 1, 0)', [(LY, "np.where(random_data <= self.p, 0, 1)", "np.where(random_data > self.p, 1, 0)")], expect='silent')
+mut('c13-twin-bn-update-reassoc', ['C13'], 'running mean update re-associated', [(K, "running_mean = mean * momentum + running_mean * (1 - momentum)", "running_mean = running_mean + momentum * (mean - running_mean)")], expect='silent')
